@@ -183,10 +183,18 @@ def oracle_poling(ctx, obs, cases):
         if r["class"] == "panic":
             ctx.violation("S5", f"optimum_poling_period panicked: {r['message'][:120]}", {"kind": "panic", "route": "optimum_poling_period"}, rep)
             continue
-        for route in ("try_new_optimum", "assign_optimum_periodic_poling"):
-            r2 = o[route]
+        routes = dict(o.get("routes", {}))
+        routes["try_new_optimum"] = o["try_new_optimum"]
+        for route, r2 in sorted(routes.items()):
+            if route.endswith(".keeps_apodization"):
+                if r2 is False:
+                    ctx.violation("S5", f"{route[:-18]} does not keep the apodization of the poling it replaces", {"kind": "poling_routes", "route": route}, rep)
+                continue
+            ctx.count("route:" + route)
             if r2["class"] != r["class"] or r2.get("value") != r.get("value"):
-                ctx.violation("S5", f"{route} and optimum_poling_period disagree on the same setup ({r2} vs {r})", {"kind": "poling_routes", "route": route}, rep)
+                ctx.violation("S5", f"{route} and optimum_poling_period disagree on the same setup: {route} gives "
+                              f"{fl(r2['value']) if r2.get('value') else r2}, optimum_poling_period gives {fl(r['value']) if r.get('value') else r} "
+                              f"({i['crystal']} {i['pm_type']})", {"kind": "poling_routes", "route": route}, rep)
         if o["compute_sign_positive"] is not True and o["compute_sign_positive"] is not False:
             ctx.violation("S5", "PeriodicPoling::compute_sign panicked", {"kind": "panic", "route": "compute_sign"}, rep)
         elif o["compute_sign_positive"] != (not (z0 < 0)):
